@@ -2,7 +2,7 @@ CONSTANTS
  MaxLen = 4
  Alpha = "all"
  ScaleTo = {}
- OnlyFull = FALSE
+ OnlyFull = TRUE
 SPECIFICATION Spec
 INVARIANT AbsSane
 INVARIANT EmitStream
